@@ -317,6 +317,7 @@ package primitive
 //@ func WriteUnsignedVint
 //@   prop C03, C12, C02
 //@   assigns wstream(dest)
+//@   ensures inmem: inmemory(dest) ==> err == nil
 //@   unroll #0 9
 //@   let w0 = written(dest)
 //@   ensures len: err == nil ==> written(dest) == old(written(dest)) + LengthOfUnsignedVint(v) && written == LengthOfUnsignedVint(v)
@@ -354,8 +355,10 @@ package primitive
 //@   prop C12, C02
 //@   ensures inverse: ite(result >= 0, 2 * Z(result), -2 * Z(result) - 1) == Z(n)
 //@ func WriteVint
-//@   prop C03
+//@   prop C03, C12
 //@   assigns wstream(dest)
+//@   ensures inmem: inmemory(dest) ==> err == nil
+//@   ensures bytes1: err == nil && specVintSize(encodeZigZag(v)) == 1 ==> wbyte(dest, old(written(dest))) == uint8(encodeZigZag(v))
 //@   ensures len: err == nil ==> written(dest) == old(written(dest)) + LengthOfVint(v) && written == LengthOfVint(v)
 
 // collections: both the writer loop and the length loop compute  2 + sum of the elements' lengths
